@@ -702,6 +702,11 @@ impl<'p> Interp<'p> {
                 if i < 0 {
                     return Err(ErrKind::InvalidArgument);
                 }
+                if i as usize >= tb.borrow().len() && tb.borrow().iter().any(|(k, _)| matches!(k, RV::Nil)) {
+                    // row beyond the end of a table that has a nil key: the statement does not say
+                    // whether the nil-keyed entry may be reported; not judged
+                    return Err(ErrKind::Undefined("row_out_of_range_with_nil_key"));
+                }
                 let (k, v) = tb.borrow().get(i as usize).cloned().unwrap_or((RV::Nil, RV::Nil));
                 let row = RV::new_table();
                 self.table_set(&row, RV::str("key"), k)?;
